@@ -105,6 +105,18 @@ impl Profile for ProxyTwin {
                 }
             };
             if kind == Kind::Instantiate {
+                // now and then the very same (code, sender, salt) again, with other arguments
+                let again = ops.iter().rev().find_map(|o| match o {
+                    Op::Twin(t) if t.hid == "instantiate" && t.salt.is_some() => Some(t.clone()),
+                    _ => None,
+                });
+                if let (Some(prev), true) = (again, rng.chance(1, 3)) {
+                    let pe = reg.get(&wp.codes[prev.code].cid).unwrap();
+                    let h = pe.spec.of_kind(Kind::Instantiate).next().unwrap();
+                    let args = sg.args_for(rng, pe.spec.cid, h, 0);
+                    ops.push(Op::Twin(Twin { args: Value::Object(args), label: Some(format!("again{}", sg.nonce())), funds: None, ..prev }));
+                    continue;
+                }
                 let code = rng.below(wp.codes.len() as u64) as usize;
                 let pe = reg.get(&wp.codes[code].cid).unwrap();
                 let h = pe.spec.of_kind(Kind::Instantiate).next().unwrap();
